@@ -306,7 +306,7 @@ pub fn run(ctx: &Ctx) {
     let cases = exhaustive_cases(l);
     ctx.extra("exhaustive_sequence_length", serde_json::json!(l));
     enumerate(ctx, "exh-sequences", &cases, true, |c, o| dirs.with(|d| judge(d, c, o)));
-    explore(ctx, "random", ctx.tier.pick(150_000, 2_000_000), strategy, |c: &Case, o| dirs.with(|d| judge(d, c, o)));
+    explore(ctx, "random", ctx.tier.pick(400_000, 4_000_000), strategy, |c: &Case, o| dirs.with(|d| judge(d, c, o)));
 }
 
 pub fn replay(ctx: &Ctx, part: &str, case: &Value) -> bool {
